@@ -55,7 +55,7 @@ class Prop(PropBase):
     id = 'C16'
     coq_imports = ['PV.Model.Codec']
     props_file = 'theories/Props/C16.v'
-    n_cases = {'quick': 1500, 'thorough': 24000}
+    n_cases = {'quick': 1200, 'thorough': 12000}
     rule = ('cases = for each of json/yaml/toml: (a) write->fetch through the REAL steps on temp files: a '
             'context (values referencing each other), a payload tree of mappings/sequences whose leaves '
             'and keys are type-ambiguous strings (\'\', true, 1, null, ~, blanks, multi-line, controls, '
